@@ -7,7 +7,7 @@ from harness import coqfmt as cf
 PROP = "C15"
 COQ = dict(imports=["Model.Cycle", "Spec.C15"], in_ty="graph", out_ty="load_res",
            corr="corr_C15", decide="check_C15", model="load", inclass="wf_refsb")
-THEOREMS = ["C15_iff", "C15_total", "C15_heads_bases", "C15_model_holds", "C15_decider_sound", "C15_kahn_iff", "C15_traversal_total"]
+THEOREMS = ["C15_iff", "C15_total", "C15_heads_bases", "C15_model_holds", "C15_decider_sound", "C15_kahn_iff", "C15_traversal_total", "C15_accepted_commands_terminate"]
 TRUSTED = ["graphs are given to the model with depends_on already resolved to revision ids "
            "(branch-label dependencies are covered by C16/C17)"]
 ASSUME = ["every down_revision / depends_on names a revision that exists, ids are distinct (wf_refs); "
